@@ -14,6 +14,7 @@ from vlib import models
 from vlib.build import rng_for
 
 PROPERTY = "C04"
+CASE_TIMEOUT = 900
 LEVEL = "exploration"
 TECHNIQUE = "runtime monitoring: real filter objects driven over bounded-exhaustive orderings x failure masks x percentile grid, exact-rational reference oracle"
 LEVEL_TEXT = ("every weight vector returned by the real CVaR filter over all orderings/failure masks for n<=5 (quick) / n<=7 (thorough) "
@@ -70,7 +71,9 @@ def cases(tier: str, seed: int):
             for fl, kind in FLAVOURS:
                 if n >= nmax and fl != "objective" and sum(not m for m in mask) >= nmax - 0 and tier == "quick":
                     continue
-                yield {"mode": "exhaustive", "n": n, "failed": list(mask), "flavour": fl, "kind": kind}
+                chunks = 8 if (n >= 7 and sum(not m for m in mask) >= 6) else 1      # keep every case well below the per-case watchdog
+                for ch in range(chunks):
+                    yield {"mode": "exhaustive", "n": n, "failed": list(mask), "flavour": fl, "kind": kind, "chunk": [ch, chunks]}
     count = 300 if tier == "quick" else 6000
     for i in range(count):
         rng = rng_for(seed, "c04s", i)
@@ -190,9 +193,11 @@ def run_case(case, obs):
     grid = _grid(max(ns, 1), obs.tier)
     if mode == "sampled":
         grid = [grid[j] for j in rng.choice(len(grid), size=min(12, len(grid)), replace=False)] + [float(rng.uniform(1e-6, 1.0))]
+    elif case.get("chunk"):
+        grid = grid[case["chunk"][0]::case["chunk"][1]]
     pm = _pm()
     if ns:
-        obs.nontrivial(n, case["failed"], fl, kind, case.get("i"))
+        obs.nontrivial(n, case["failed"], fl, kind, case.get("i"), case.get("chunk"))
     obs.feature(f"flavour.{fl}.{kind}")
     obs.feature(f"n.{n}")
     if ns < n:
